@@ -4860,10 +4860,25 @@ impl<Front: SocketHandler> ConnectionH2<Front> {
     /// the full writable() path. Used during shutdown when the event loop
     /// won't deliver new epoll events for this session (edge-triggered).
     pub fn flush_zero_buffer(&mut self) {
-        if self.flush_zero_to_socket() {
-            return;
+        // The zero buffer is shared with the read side: frame headers and the
+        // payloads of connection-level frames - and of DATA frames for streams
+        // that are already closed or refused, up to 16 KiB - are read into it,
+        // possibly over several passes. Only a control frame that was scheduled
+        // (`expect_write == Zero`) may be flushed from here: the shutdown loop
+        // calls this on every pass, and flushing unconditionally wrote a
+        // half-received payload back to the client as if it were output, after
+        // which the frame failed to parse and the draining connection was killed
+        // with GOAWAY(PROTOCOL_ERROR) together with its in-flight streams.
+        if matches!(self.expect_write, Some(H2StreamId::Zero)) {
+            if self.flush_zero_to_socket() {
+                return;
+            }
+            self.expect_write = None;
+            // reads were paused while the control frame sat in the shared buffer
+            if !matches!(self.state, H2State::GoAway | H2State::Error) {
+                self.readiness.interest.insert(Ready::READABLE);
+            }
         }
-        self.expect_write = None;
         if self.socket.socket_wants_write() {
             let (_size, status) = self.socket.socket_write(&[]);
             let _ = update_readiness_after_write(0, status, &mut self.readiness);
